@@ -86,13 +86,20 @@ class Judge:
                 how = "on-closed-connector"
             self.found["limit"] = (idx, how, f"in use {total} (per host {per}) with limit={self.limit} limit_per_host={self.lph}")
         closed = p.conn._closed
+        if lab == "C" and self.prev is not None and not self.closed_seen:
+            # tasks parked on a pending future when close() was called: close must fail them
+            self.waiting_at_close = {t for t, st in enumerate(self.prev) if st == "w"}
+        if closed:
+            self.closed_seen = True
         if not ready:
             # (2) nobody waits while there is capacity / on a closed connector
             for t, st in enumerate(states):
                 if st == "w":
                     k = p.keys[t]
                     cap = (not self.limit or total < self.limit) and (not self.lph or per[k] < self.lph)
-                    if closed:
+                    if closed and t in getattr(self, "waiting_at_close", ()):
+                        self.found.setdefault("close-waiter", (idx, "waiter-not-failed", f"task {t} was waiting when the connector was closed and is still parked"))
+                    elif closed:
                         self.found.setdefault("parked-closed", (idx, "waiter-parked-on-closed-connector", f"task {t} parked forever on a closed connector"))
                     elif cap:
                         why = ("woken-waiter-cancelled" if "woken-waiter-cancelled" in self.flags else
@@ -119,7 +126,7 @@ class Judge:
 
 
 SIG = {"limit": "C07/limit-exceeded/", "stuck": "C07/lost-wakeup/", "parked-closed": "C07/close/",
-       "leak": "C07/leak/", "close-open": "C07/close/"}
+       "leak": "C07/leak/", "close-open": "C07/close/", "close-waiter": "C07/close/"}
 
 
 def run_case(case, want_proj=True, observe=None):
